@@ -246,8 +246,9 @@ func (r *runner) runCLIEnv(dir, sub, config, routesOut, specOut, order string, e
 	return obs
 }
 
-const staleRoutes = "// stale output left by an earlier run\npackage stale\n"
-const staleSpec = "{\"stale\": true}\n"
+// stale outputs are LONGER than anything a run writes: an output that is overwritten without being truncated keeps a stale tail
+var staleRoutes = "// stale output left by an earlier run\npackage stale\n" + strings.Repeat("// stale stale stale stale stale stale stale stale stale stale stale stale stale stale stale stale\n", 6000)
+var staleSpec = "{\"stale\": true, \"pad\": \"" + strings.Repeat("stale ", 80000) + "\"}\n"
 
 func effOut(cfg pCfg) (routesOut, specOut string) {
 	routesOut, specOut = cfg.RoutesOut, cfg.SpecOut
